@@ -307,3 +307,18 @@ register("C20", run=run_c20, tie="coq/Ident/Cases.v vs conn.go getConn/doRPC, se
          level_text="Theorems (every history of dials to adversarially chosen listeners, handshakes, sends, closes): a non-identity request reaches "
                     "a listener's handlers only over a connection whose listener is the (cluster,node) the dialer intended; a dialer keeps only such "
                     "connections; a held lock refuses every other attempt; a set identity cannot be changed. Tie: real pool/server code over pipes.")
+
+
+reg_node("C06", "Theorems (node level, every state/input): the commit point the leader computes is matched by a majority of the voters of the "
+         "latest configuration, the leader counting itself only as a voter; the cached voter count/flag always describe the latest configuration "
+         "(invariant over all leader events; the pre-repair code broke it); commit advances only to that point, beyond the start of the term, after "
+         "flushing the leader's own log; a follower answers success only after flushing what it appended and commits only covered, leader-committed, "
+         "current-term entries. Cluster-level theorem (abstract protocol): see Props/C06.v when present. Monitor: at every commit advance on the "
+         "simulated cluster, count the voters that hold the entry flushed.",
+         ["NoDup node ids in a configuration (Go map)"])
+reg_node("C08", "Theorems: every configuration derived by one action is adjacent (voter sets differ in at most one node) and majorities of adjacent "
+         "configurations intersect; a submitted configuration is rejected unless the previous one is committed, an own-term entry is committed, no "
+         "voting right changes directly, no node vanishes, new nodes are non-voters and a stable voter remains; actions are carried out only when "
+         "canChangeConfig holds (incl. own-term commit: the pre-repair guard is refuted); followers adopt the newest configuration entry. "
+         "PARTIAL: the cross-leader overlap argument (H_overlap) is not mechanised (said in Props/C08.v).",
+         ["NoDup node ids; requests carry consecutive entries"])
